@@ -23,7 +23,7 @@ ID = "C09"
 LEVEL = "exploration"
 RULE = ("random queries whose condition contains at least one user predicate (function predicate, Predicate subclass or "
         "HasType) over 1-2 variables, depth<=3, quantifier an / the / infer (infer and a share of an/the use a rule head "
-        "V(b=x, k=expr) built in rule mode), each evaluated from a fresh build under ambient none, query and rule mode and inside the query's own symbolic_mode(q) / rule_mode(q) block; a fifth of the conditions contain a predicate that builds and evaluates a query of its own (with a Predicate subclass in it); for half of the an/infer cases the ambient mode also changes between successive results (one scheduled mode per next()); a share of the single-variable cases take their domain from a nested query that is evaluated lazily. "
+        "V(b=x, k=expr) built in rule mode), each evaluated from a fresh build under ambient none, query and rule mode and inside the query's own symbolic_mode(q) / rule_mode(q) block, also nested in another query's block; a fifth of the conditions contain a predicate that builds and evaluates a query of its own (with a Predicate subclass in it); for half of the an/infer cases the ambient mode also changes between successive results (one scheduled mode per next()); a share of the single-variable cases take their domain from a nested query that is evaluated lazily. "
         "Non-trivial: the oracle outcome is not empty/none. distinct by structural hash.")
 LEVEL_TEXT = ("Configuration differential on the real code (three ambient modes) plus oracle; predicate call counters "
               "show that user code really ran concretely in every mode; result objects are type-checked.")
@@ -43,7 +43,7 @@ class V:
 MODES = ["none", "query", "rule"]
 # blocks that also carry a query of their own (rule_mode(q) is how conclusions are added to q): the statement names the
 # three modes; these spellings of the same modes are compared like them
-MODES_WITH_QUERY = ["query_of", "rule_of"]
+MODES_WITH_QUERY = ["query_of", "rule_of", "nested_of"]
 
 
 def plan(tier, seed):
@@ -97,6 +97,12 @@ def _ambient(mode, q=None):
         return symbolic_mode()
     if mode == "rule":
         return rule_mode()
+    if mode == "nested_of":
+        # two nested blocks that both carry a query: another query's symbolic_mode(o) around the evaluated query's rule_mode(q)
+        stack = contextlib.ExitStack()
+        stack.enter_context(_ambient("query_of"))
+        stack.enter_context(_ambient("rule_of", q))
+        return stack
     if mode in ("query_of", "rule_of"):
         from entity_query_language import an, entity, let
         if q is not None:       # the block of the very query that is evaluated inside it
